@@ -4,11 +4,13 @@
 import os, sys, json, collections
 sys.path.insert(0, os.path.dirname(os.path.dirname(os.path.abspath(__file__))))
 os.environ.setdefault("PSYCLONE_CONFIG", "/repo/config/psyclone.cfg")
-from simkit import runner
+from simkit import runner, perf; perf.install()
 from simkit.core import canon
 prop = sys.argv[1]; n = int(sys.argv[2]); out = sys.argv[3]
 seed = int(sys.argv[4]) if len(sys.argv) > 4 else 0
 check = runner.load_check(prop)
+if hasattr(check, "prepare"):
+    import atexit; check.prepare(); atexit.register(check.cleanup)
 plan = dict(check.plan("quick")); plan["runs"] = n
 res, errs, st = runner.explore(check, seed, "quick", plan, 16)
 best = {}
